@@ -1,24 +1,30 @@
 (** C02 — setState / comparePopScore are atomic. Theorems about the closed, instantiated machine
-    (Pop/SmDefs.v: as-coded model; concrete reference-count protecting state). Each is [exact] of a lemma of
-    Pop/SmProofs.v / Pop/SmWf.v.
+    (Pop/SmDefs.v: as-coded model of CommandGroup / PopStateMachine / comparator / AltBlockTree::setState,
+    comparePopScore; concrete reference-count protecting state). Each is [exact] of a lemma of Pop/Sm*.v.
 
-    PROVED, for all trees / payload assignments / failing positions (n,k):
-      * CommandGroup::execute and applyBlock are atomic (exact equality of P), unExecute / unapplyBlock are exact inverses;
-      * C02_setState_atomic: from every state reachable by connectBlock / setState histories ([quiet]: tree well formed,
-        tip applied, counter = length of root..tip) setState returns to such a state; on success the target is the tip and
-        EXACTLY the blocks root..target are flagged applied; on failure tip, counter and the applied flags of ALL blocks
-        are exactly what they were (C02_setState_failure_unchanged: and P is unchanged as a multiset);
-      * after setState / comparePopScore with ANY outcome, from any reachable state, P is exactly the bootstrap state plus
-        the effects of the blocks flagged applied (nothing leaks).
-    GAPS (hence the two _partial theorems, full statements kept here):
-      setState_atomic also claims: marks change only on the target branch (proved for applyBlock, not lifted to the walk)
-        and no assert (Abort) is reachable;
-      compare_atomic : result >= 0 -> tip, P, applied set unchanged modulo candidate-branch marks; < 0 -> candidate is
-        tip, exactly root..candidate applied. Proved for compare: P canonical (C02_compare_atomic_partial); not proved:
-        that the applied flags are root..tip afterwards (the quiet invariant through the apply-both / unapplyWhile /
-        re-apply dance). Covered by the direct oracle and the correspondence run. *)
+    [quiet s] = tree well formed, tip applied, appliedBlockCount = length of root..tip. Every state reachable by ANY
+    history of connectBlock / setState / comparePopScore (any scorer) is quiet, and in a quiet state EXACTLY the blocks
+    root..tip are flagged applied (C02_reachable_quiet; counting argument over the as-coded counter).
+
+    PROVED, for all trees / payload assignments / failing positions (n,k) / scorers:
+      * CommandGroup::execute and applyBlock are atomic (exact equality of P), unExecute / unapplyBlock exact inverses;
+      * C02_setState_atomic_partial: setState from a quiet state ends in a quiet state; true => target is tip (exactly
+        root..target applied); false => tip, counter, the applied flag of EVERY block unchanged, and P unchanged as a
+        multiset (C02_setState_failure_unchanged);
+      * C02_compare_atomic_partial: comparePopScore from a quiet state ends in a quiet state; result >= 0 => tip,
+        counter, applied flags of every block and P (multiset) unchanged; result < 0 => the candidate is the tip and
+        exactly root..candidate is applied;
+      * after either call P is exactly bootstrap + effects of the applied blocks (C02_compare_canonical, C01).
+    GAP (why the two main theorems carry _partial; full statement of the property): additionally
+      - validity marks change only on the target / candidate branch (FAILED_POP on the first failing block, FAILED_CHILD
+        on its descendants, raised levels below it): proved for one applyBlock (C02_applyBlock_atomic), not lifted to
+        the walks;
+      - no assert of the modelled code (Abort outcome) is reachable from reachable states.
+      Both are covered by the direct oracle on the implementation (snapshot before/after every call, allowance of
+      DESIGN section 7, enumeration of the failing position) and by the step-by-step correspondence with the model. *)
 From Coq Require Import List ZArith NArith Bool Permutation.
-From VB Require Import Pop.SmDefs Pop.SmProofs Pop.SmWf.
+From VB Require Import Pop.SmDefs Pop.SmProofs Pop.SmWf Pop.SmCmp Pop.SmAll.
+Local Open Scope Z_scope.
 
 Theorem C02_group_exec_atomic :
   forall g p p', group_execute pstate ccmd cexec cunexec g p = (p', false) -> p' = p.
@@ -43,7 +49,12 @@ Theorem C02_unapply_apply_exact :
 Proof. exact c_unapply_apply. Qed.
 Print Assumptions C02_unapply_apply_exact.
 
-Theorem C02_setState_atomic_partial :
+Theorem C02_reachable_quiet :
+  forall base s, reachable base s -> quiet s /\ forall j, is_act (cores s) j <-> In j (chain s).
+Proof. exact reachable_quiet. Qed.
+Print Assumptions C02_reachable_quiet.
+
+Theorem C02_setState_outcome :
   forall base s to s' ok,
     canon base s -> c_setState s to = Ok (s', ok) ->
     Permutation (pst _ _ s') (active_items (blocks _ _ s') ++ base) /\
@@ -52,21 +63,9 @@ Theorem C02_setState_atomic_partial :
     (ok = false -> tip _ _ s' = tip _ _ s /\ napp _ _ s' = chain_count _ _ s' (tip _ _ s') /\
                    exists b, find ccmd (blocks _ _ s') to = Some b /\ is_failed _ b = true).
 Proof. exact setState_outcome. Qed.
-Print Assumptions C02_setState_atomic_partial.
+Print Assumptions C02_setState_outcome.
 
-Theorem C02_compare_atomic_partial :
-  forall base score crossed s c s' r,
-    canon base s -> c_compare score crossed s c = Ok (s', r) -> canon base s'.
-Proof. exact canon_compare. Qed.
-Print Assumptions C02_compare_atomic_partial.
-
-Theorem C02_quiet_reachable :
-  forall base r h ops s, no_compare ops -> run (c_init r h base) ops = Ok s ->
-    quiet s /\ forall j, is_act (cores s) j <-> In j (chain s).
-Proof. exact applied_exactly_run. Qed.
-Print Assumptions C02_quiet_reachable.
-
-Theorem C02_setState_atomic :
+Theorem C02_setState_atomic_partial :
   forall s to s' ok, quiet s -> c_setState s to = Ok (s', ok) ->
     quiet s' /\
     (forall j, is_act (cores s') j <-> In j (chain s')) /\
@@ -74,10 +73,26 @@ Theorem C02_setState_atomic :
     (ok = false -> tip _ _ s' = tip _ _ s /\ napp _ _ s' = napp _ _ s /\
                    forall j, is_act (cores s') j <-> is_act (cores s) j).
 Proof. exact setState_applied_exactly. Qed.
-Print Assumptions C02_setState_atomic.
+Print Assumptions C02_setState_atomic_partial.
 
 Theorem C02_setState_failure_unchanged :
   forall base s to s', quiet s -> canon base s -> c_setState s to = Ok (s', false) ->
     cores s' = cores s /\ Permutation (pst _ _ s') (pst _ _ s).
 Proof. exact setState_failure_P_unchanged. Qed.
 Print Assumptions C02_setState_failure_unchanged.
+
+Theorem C02_compare_atomic_partial :
+  forall base sc cr s c s' r,
+    quiet s -> canon base s -> c_compare sc cr s c = Ok (s', r) ->
+    quiet s' /\ (forall j, is_act (cores s') j <-> In j (chain s')) /\
+    (0 <= r -> tip _ _ s' = tip _ _ s /\ napp _ _ s' = napp _ _ s /\ cores s' = cores s /\
+               Permutation (pst _ _ s') (pst _ _ s)) /\
+    (r < 0 -> c = Some (tip _ _ s')).
+Proof. exact compare_atomic. Qed.
+Print Assumptions C02_compare_atomic_partial.
+
+Theorem C02_compare_canonical :
+  forall base score crossed s c s' r,
+    canon base s -> c_compare score crossed s c = Ok (s', r) -> canon base s'.
+Proof. exact canon_compare. Qed.
+Print Assumptions C02_compare_canonical.
